@@ -258,9 +258,11 @@ class C15(core.Prop):
         exclusions = any(o.get(k) for k in ('ignore_substrings', 'ignore_patterns', 'remove_lines'))
         if exclusions:
             if not post_cmd:
-                # only required when an exclusion actually excused / removed something; the code writes the
-                # pair when something was ignored or removed, or the actual was a string
-                pass
+                # required when an exclusion actually removed or excused something ("in force")
+                why = self.exclusion_applied(case)
+                if why:
+                    fail('no-post-processed-pair', 'an exclusion was in force (%s) and the failure names no post-processed pair: %r'
+                         % (why, msg[:200]), 'no-post-processed-pair:' + why.split(':')[0])
             else:
                 pa = after.get(rel(post_cmd[0]))
                 pe = after.get(rel(post_cmd[1]))
@@ -282,6 +284,41 @@ class C15(core.Prop):
                              % (got_pairs[:4], want_pairs[:4]))
                     self.count('post_processed_checked')
         return F
+
+    def exclusion_applied(self, case):
+        """a reason why an exclusion was certainly in force in this comparison (a line removed on either side; a pair of
+        lines, met position by position before any unexcused difference, that differs and is excused), or None"""
+        o = case['opts']
+        act, exp = cf.lines_seen_by_code(case)
+        pp = cf.PREPROCESS[o.get('preprocess')]
+        if pp:
+            exp, act = pp(exp), pp(act)
+        if act and act[-1] == '':
+            act = act[:-1]
+        if exp and exp[-1] == '':
+            exp = exp[:-1]
+        rem = o.get('remove_lines') or []
+        if any(any(x in l for x in rem) for l in act):
+            return 'removed: a line of the actual text'
+        if any(any(x in l for x in rem) for l in exp):
+            return 'removed: a line of the reference'
+
+        def norm(s_):
+            if o.get('lstrip') and o.get('rstrip'):
+                return s_.strip()
+            return s_.lstrip() if o.get('lstrip') else s_.rstrip() if o.get('rstrip') else s_
+        subs = o.get('ignore_substrings') or []
+        pats = o.get('ignore_patterns') or []
+        for a, e in zip(act, exp):
+            if norm(a) == norm(e):
+                continue
+            if any(s_ in norm(e) for s_ in subs):
+                return 'excused: by a substring'
+            if pats and cf.doc_pat_equiv(norm(a), norm(e), pats):
+                return 'excused: by a pattern'
+            if len(act) != len(exp):
+                break               # (with different numbers of lines the comparison stops at the first unexcused pair)
+        return None
 
     def unexcused_pairs(self, case):
         """Normalized (actual, expected) pairs with an unexcused difference, in order; None when the two
